@@ -20,6 +20,7 @@ import EsbuildModel.Impl.Order
 import EsbuildModel.Impl.Stdio
 import EsbuildModel.Impl.NumPrint
 import EsbuildModel.Impl.Slots
+import EsbuildModel.Impl.PkgExports
 
 open EsbuildModel
 
@@ -47,6 +48,7 @@ def dispatch (kernel : String) (args : List String) : String :=
   | "stdio" => Stdio.driver args
   | "numprint" => NumPrint.driver args
   | "slots" => Slots.driver args
+  | "pkgexports" => PkgExports.driver args
   | _ => "bad-kernel"
 
 partial def loop (hin hout : IO.FS.Stream) : IO Unit := do
